@@ -243,23 +243,48 @@ def collect(ctx, jobs, incidents):
     return findings, stats
 
 def profile_diff(ctx, profiles):
-    """Calls whose value is not asserted must still behave identically in the two build profiles (C01/C06)."""
-    maps = []
-    for pr in profiles[:2]:
-        m = {}
-        for fn in os.listdir(ctx.wd):
-            if fn.startswith("unspec_%s_" % pr):
-                for line in open(os.path.join(ctx.wd, fn), errors="replace"):
-                    parts = line.rstrip("\n").split("\t")
-                    if len(parts) >= 5:
-                        m[parts[0]] = parts[1:]
-        maps.append(m)
+    """Calls whose value is not asserted must still behave identically in the two build profiles (C01/C06).
+    The two profiles run the same deterministic jobs, so their files of unasserted calls list the same calls in the same order:
+    they are compared in lockstep (tens of millions of lines in the thorough tier); a pair of files that is not aligned (a job was
+    restarted after a hang) is compared through a dictionary if it is small, else skipped with a note."""
     out = []
-    for k, v in maps[0].items():
-        w = maps[1].get(k)
-        if w is not None and w[0] != v[0]:
-            out.append({"cat": "profile_diff", "e": v[1], "input": v[3], "ph": v[2], "ph_show": v[2], "expected": "same outcome in debug and release",
-                        "actual": "%s: %s / %s: %s" % (profiles[0], v[0], profiles[1], w[0]), "extra": {}})
+    a, b = profiles[0], profiles[1]
+    for fn in sorted(os.listdir(ctx.wd)):
+        if not fn.startswith("unspec_%s_" % a):
+            continue
+        fa = os.path.join(ctx.wd, fn)
+        fb = os.path.join(ctx.wd, "unspec_%s_" % b + fn[len("unspec_%s_" % a):])
+        if not os.path.exists(fb):
+            continue
+        aligned = True
+        with open(fa, errors="replace") as ha, open(fb, errors="replace") as hb:
+            for la, lb in zip(ha, hb):
+                if la == lb:
+                    continue
+                pa, pb = la.rstrip("\n").split("\t"), lb.rstrip("\n").split("\t")
+                if len(pa) < 5 or len(pb) < 5:
+                    continue
+                if pa[0] != pb[0]:
+                    aligned = False
+                    break
+                if pa[1] != pb[1]:
+                    out.append({"cat": "profile_diff", "e": pa[2], "input": pa[4], "ph": pa[3], "ph_show": pa[3], "expected": "same outcome in debug and release",
+                                "actual": "%s: %s / %s: %s" % (a, pa[1], b, pb[1]), "extra": {}})
+        if not aligned:
+            if os.path.getsize(fa) + os.path.getsize(fb) > 400 * 1024 * 1024:
+                log("profile comparison of %s skipped: the two files are not aligned and too large to index" % fn)
+                continue
+            m = {}
+            for line in open(fa, errors="replace"):
+                parts = line.rstrip("\n").split("\t")
+                if len(parts) >= 5:
+                    m[parts[0]] = parts[1:]
+            for line in open(fb, errors="replace"):
+                parts = line.rstrip("\n").split("\t")
+                v = m.get(parts[0]) if len(parts) >= 5 else None
+                if v is not None and v[0] != parts[1]:
+                    out.append({"cat": "profile_diff", "e": v[1], "input": v[3], "ph": v[2], "ph_show": v[2], "expected": "same outcome in debug and release",
+                                "actual": "%s: %s / %s: %s" % (a, v[0], b, parts[1]), "extra": {}})
     if out:
         log("profile differences on unasserted calls: %d" % len(out))
     return out
